@@ -245,15 +245,16 @@ pub fn cases(tier: &str, seed: u64) -> Vec<Case> {
     }
     // depth of indirection: names nested "new label + pointer to the previous name" (what a compressing
     // writer emits for a.b.c.d..., b.c.d..., c.d...) and pure pointer-to-pointer chains, 1 to 40 hops
-    for depth in 1..=40usize {
+    for depth in (1..=40usize).chain([41, 63, 64, 65, 100, 125, 126, 127, 128, 200]) {
         let mut nested = vec![0u8; 3];            // offset 3: the innermost name, one label and the root
         nested.extend_from_slice(&[1, b'z', 0]);
         let mut prev = 3usize;
+        // 126 hops (a name of 127 one-octet labels, 255 octets) are the most a legal name can need; from 127 on the name is
+        // too long, which is the decoder's business to say, not the hop count's
         for k in 0..depth {
             let here = nested.len();
-            nested.extend_from_slice(&[1, b'a' + (k % 26) as u8, 0xC0, prev as u8]);
+            nested.extend_from_slice(&[1, b'a' + (k % 26) as u8, 0xC0 | (prev >> 8) as u8, prev as u8]);
             prev = here;
-            if prev > 250 { break; }
         }
         push_case(&mut v, &nested, prev, "nested-depth");
         let mut chain = vec![2u8, b'o', b'k', 0];  // offset 0: a name; then pointers to pointers
